@@ -177,6 +177,10 @@ def generate(prop, rng, tier):
     elif struct == 'nested':
         cfg['n'] = rng.randint(1, 2)
         cfg['m'] = rng.randint(1, 2)
+    if struct == 'leaf' and rng.random() < 0.15:
+        # two pool members that are different views (other strides) of one
+        # buffer starting at the same address: distinct operands, read only
+        cfg['overlap'] = True
     if struct != 'leaf' and rng.random() < 0.3:
         # exponent / weighting of the product space itself: part of the space
         # every result has to belong to
@@ -368,6 +372,24 @@ class Pool(object):
                 parts = list(pb.parts)
                 parts[i] = pa.parts[i]
                 self.objs[b] = self.S.element(parts)
+        self.readonly = set()
+        if cfg.get('overlap') and st == 'leaf':
+            shp = tuple(self.S.shape)
+            dt = self.S.dtype
+            pair = None
+            if len(shp) == 1 and shp[0] >= 2:
+                n = shp[0]
+                big = guarded_layout(SP.rand_array((2 * n,), dt, g), 'C')
+                pair = (big[:n], big[::2])
+            elif len(shp) == 2 and shp[0] == shp[1] and shp[0] >= 2:
+                big = guarded_layout(SP.rand_array(shp, dt, g), 'C')
+                pair = (big, big.T)
+            if pair is not None:
+                for q, arr in enumerate(pair):
+                    e = self.S.element(arr)
+                    if np.shares_memory(elem_arrays(e)[0], arr):
+                        self.objs[q] = e
+                        self.readonly.add(id(e))
         self.x0 = [self._make(self.base, g) for _ in range(2)] \
             if self.base is not None else []
         for obj, pos, what in plan.get('nf', []):
@@ -604,6 +626,14 @@ class Run(object):
         A_obj = sel[opnds[0]] if opnds[0] in sel else None
         B_obj = sel[opnds[1]] if opnds[1] in sel else None
         out_obj = sel[outsel] if outsel else None
+        if out_obj is not None and id(out_obj) in pool.readonly:
+            # writing into one of two overlapping views is outside the
+            # contract (identity, not memory overlap, is what it covers)
+            raise Reject('overlapping views are read-only operands')
+        if pool.readonly and A_obj is not None and B_obj is not None and \
+                A_obj is not B_obj and id(A_obj) in pool.readonly and \
+                id(B_obj) in pool.readonly:
+            self.ctx.fired('overlapping-distinct-operands')
         pattern = _pattern(f, op)
         site = self.site(op, pattern)
         # ---- snapshot and model ------------------------------------------
